@@ -1,11 +1,3 @@
-(* The data of a Graph value as the state model carries it (graph.rs: Graph):
-   nodes id -> state, edges destination id -> list of (origin id, weight bits).
-   Operations and theorems: Model/Graph.v (C18). *)
-From Coq Require Import ZArith List.
-From PushModel Require Import Base.F32.
-Open Scope Z_scope.
-
-Record graph := {
-  g_nodes : list (Z * Z);                       (* (node id, state) *)
-  g_edges : list (Z * list (Z * f32)) }.        (* (destination, [(origin, weight)]) *)
-Definition empty_graph : graph := {| g_nodes := nil; g_edges := nil |}.
+(* The graph values carried by the state are those of Model/Graph.v (C18). *)
+From PushModel Require Export Model.Graph.
+Definition empty_graph : graph := g_new.
